@@ -46,14 +46,18 @@ def render(source, rname='Html', **opts):
         reset()
 
 
-def parse(source, rname=None, **opts):
+def parse(source, rname=None, scrub_first=False, **opts):
     """Returns the Document parsed under the token set of renderer ``rname``
     (None: default token set)."""
     if rname is None:
+        if scrub_first:
+            scrub()
         return Document(source)
     cls = renderer_class(rname) if isinstance(rname, str) else rname
     try:
         with cls(**opts):
+            if scrub_first:
+                scrub()
             return Document(source)
     finally:
         reset()
@@ -79,3 +83,17 @@ def exc_site(exc):
 
 def tb_text(exc, limit=12):
     return ''.join(traceback.format_exception(type(exc), exc, exc.__traceback__, limit=-limit))
+
+
+SCRUB_TEXT = '<x-scrub>\n\n# s\n\n```\n```\n\ns\n'
+
+
+def scrub():
+    """Parse a neutral document so that every piece of class-level parser scratch
+    (heading level/content/closing sequence, fence info, HTML end condition) holds a
+    neutral value before a relational comparison starts.  Without it, residue of the
+    previous case could mask a state leak between two blocks of one document."""
+    try:
+        Document(SCRUB_TEXT)
+    except Exception:
+        pass
